@@ -112,15 +112,10 @@ Definition keys_inv (s : state) : Prop := forall a r, recs s a = Some r -> In a 
 Definition slash_inv (s : state) : Prop :=
   forall a r, recs s a = Some r -> o_slash r = 0 \/ (o_slash r = 1 /\ o_online r = false).
 
-(* the stake equation.  [gov_und] is a history variable: what governance removal undelegated since the
-   record was created *)
-Definition stake_inv (s : state) : Prop :=
-  (forall a r, recs s a = Some r -> o_amount r = deleg s a (o_val r) + gov_und s a) /\
-  (forall a r v, recs s a = Some r -> v <> o_val r -> deleg s a v = 0) /\
-  (forall a v, recs s a = None -> deleg s a v = 0) /\
-  (forall a r, recs s a = Some r -> ~ In a (proposal s) -> deleg s a (o_val r) = 0).
+Definition core_inv (s : state) : Prop := keys_inv s /\ slash_inv s.
 
-Definition reg_inv (s : state) : Prop := idx_inv s /\ keys_inv s /\ slash_inv s /\ stake_inv s.
+(* the invariants that hold for EVERY operation list, validator slashing included *)
+Definition reg_inv (s : state) : Prop := idx_inv s /\ keys_inv s /\ slash_inv s.
 
 Lemma slash_amount_nonneg : forall r f, 0 <= slash_amount r f.
 Proof. intros. unfold slash_amount. lia. Qed.
@@ -131,28 +126,12 @@ Proof.
   intros r f H. unfold slash_amount. rewrite H, Z.mul_0_r. cbn. lia.
 Qed.
 
-(* records related by [slash_rel] / offline-only changes keep amount and validator *)
 Definition core_eq (r r' : oracle) : Prop :=
   o_addr r' = o_addr r /\ o_bridger r' = o_bridger r /\ o_ext r' = o_ext r /\
   o_amount r' = o_amount r /\ o_val r' = o_val r /\ o_start r' = o_start r.
 
 Lemma slash_rel_core : forall r r', slash_rel r r' -> core_eq r r'.
 Proof. intros r r' [->|[_ ->]]; unfold core_eq; cbn; tauto. Qed.
-
-Lemma stake_inv_core : forall s s',
-  stake_inv s -> rel_recs core_eq (recs s) (recs s') ->
-  deleg s' = deleg s -> gov_und s' = gov_und s -> proposal s' = proposal s -> stake_inv s'.
-Proof.
-  intros s s' (S1 & S2 & S3 & S4) HR HD HG HP. unfold stake_inv. rewrite HD, HG, HP.
-  repeat split.
-  - intros a r' H. specialize (HR a). rewrite H in HR. destruct (recs s a) eqn:E; [|tauto].
-    destruct HR as (_ & _ & _ & A & V & _). rewrite A, V. auto.
-  - intros a r' v H Hv. specialize (HR a). rewrite H in HR. destruct (recs s a) eqn:E; [|tauto].
-    destruct HR as (_ & _ & _ & A & V & _). rewrite V in Hv. eauto.
-  - intros a v H. specialize (HR a). rewrite H in HR. destruct (recs s a) eqn:E; [tauto|]. auto.
-  - intros a r' H Hp. specialize (HR a). rewrite H in HR. destruct (recs s a) eqn:E; [|tauto].
-    destruct HR as (_ & _ & _ & A & V & _). rewrite V. eauto.
-Qed.
 
 Lemma rel_recs_impl : forall (R Q : oracle -> oracle -> Prop), (forall r r', R r r' -> Q r r') ->
   forall f g, rel_recs R f g -> rel_recs Q f g.
@@ -172,155 +151,65 @@ Proof.
   destruct (SI _ _ E) as [Z0|[_ Off]]; [lia | congruence].
 Qed.
 
+
 (* ------------------------------------------------------------------ *)
-(* preservation, operation by operation                                *)
+(* keys / slash-counter invariant, operation by operation              *)
 
-Definition rest_inv (s : state) : Prop := keys_inv s /\ slash_inv s /\ stake_inv s.
-
-Lemma bond_rest : forall s a b e v amt s', rest_inv s -> bond s a b e v amt = Ok s' -> rest_inv s'.
+(* a transition that rewrites the record at address a (or leaves the store alone) *)
+Lemma core_inv_upd : forall s s' a r',
+  core_inv s -> recs s' = upd (recs s) a (Some r') -> incl (keys s) (keys s') -> In a (keys s') ->
+  (o_slash r' = 0 \/ (o_slash r' = 1 /\ o_online r' = false)) -> core_inv s'.
 Proof.
-  intros s a b e v amt s' (K & SL & S1 & S2 & S3 & S4) H. unfold bond in H. guards H.
-  inversion H; subst; clear H. unfold rest_inv, keys_inv, slash_inv, stake_inv. unfold_power.
-  assert (D0 : forall w, deleg s a w = 0) by (intro; apply S3; auto).
-  repeat split.
-  - intros a0 r H. destruct (upd_cases _ (recs s) a (Some (mkOracle a b e amt (height s) true v 0)) a0) as [[-> E]|[Hn E]]; rewrite E in H.
-    + destruct (memZ a (keys s)) eqn:M; [apply memZ_In; auto | apply in_or_app; right; left; auto].
-    + destruct (memZ a (keys s)); [eauto | apply in_or_app; left; eauto].
-  - intros a0 r H. destruct (upd_cases _ (recs s) a (Some (mkOracle a b e amt (height s) true v 0)) a0) as [[-> E]|[Hn E]]; rewrite E in H.
-    + inversion H; subst; cbn. auto.
-    + eauto.
-  - intros a0 r H. destruct (upd_cases _ (recs s) a (Some (mkOracle a b e amt (height s) true v 0)) a0) as [[-> E]|[Hn E]]; rewrite E in H.
-    + inversion H; subst; proj. rewrite upd2_same, upd_same, D0. lia.
-    + rewrite upd2_other_a, upd_other; auto.
-  - intros a0 r v0 H Hv. destruct (upd_cases _ (recs s) a (Some (mkOracle a b e amt (height s) true v 0)) a0) as [[-> E]|[Hn E]]; rewrite E in H.
-    + inversion H; subst; proj. rewrite upd2_other_b; auto.
-    + rewrite upd2_other_a; eauto.
-  - intros a0 v0 H. destruct (upd_cases _ (recs s) a (Some (mkOracle a b e amt (height s) true v 0)) a0) as [[-> E]|[Hn E]]; rewrite E in H.
-    + discriminate.
-    + rewrite upd2_other_a; eauto.
-  - intros a0 r H Hp. destruct (upd_cases _ (recs s) a (Some (mkOracle a b e amt (height s) true v 0)) a0) as [[-> E]|[Hn E]]; rewrite E in H.
-    + exfalso. apply Hp. apply memZ_In. auto.
-    + rewrite upd2_other_a; eauto.
+  intros s s' a r' (K & SL) HR HK Ha Hs. split.
+  - intros a0 r0 H. rewrite HR in H. destruct (upd_cases _ (recs s) a (Some r') a0) as [[-> E]|[Hn E]]; rewrite E in H; eauto.
+  - intros a0 r0 H. rewrite HR in H. destruct (upd_cases _ (recs s) a (Some r') a0) as [[-> E]|[Hn E]]; rewrite E in H; eauto.
+    inversion H; subst; auto.
 Qed.
 
-Lemma add_delegate_rest : forall s a amt rw s', rest_inv s -> add_delegate s a amt rw = Ok s' -> rest_inv s'.
+Lemma core_inv_frame : forall s s', core_inv s -> recs s' = recs s -> keys s' = keys s -> core_inv s'.
+Proof. intros s s' I HR HK. unfold core_inv, keys_inv, slash_inv in *. rewrite HR, HK. exact I. Qed.
+
+Lemma bond_core : forall s a b e v amt s', core_inv s -> bond s a b e v amt = Ok s' -> core_inv s'.
 Proof.
-  intros s a amt rw s' (K & SL & S1 & S2 & S3 & S4) H. unfold add_delegate in H. guards H.
-  inversion H; subst; clear H. rename o into r. rename Heqo into Hr.
-  pose proof (slash_amount_nonneg r (p_fraction (prm s))) as SN.
-  set (sl := slash_amount r (p_fraction (prm s))) in *.
-  assert (DC : 0 <= amt - sl).
-  { apply Z.leb_gt in Heqb. destruct (0 <? sl) eqn:P; cbn [andb] in Heqb1.
-    - apply Z.ltb_ge in Heqb1. lia.
-    - apply Z.ltb_ge in P. lia. }
-  unfold rest_inv, keys_inv, slash_inv, stake_inv. unfold_power.
-  set (r' := mkOracle (o_addr r) (o_bridger r) (o_ext r) (o_amount r + (amt - sl))
-                      (if o_online r then o_start r else height s) true (o_val r) 0) in *.
-  repeat split.
-  - intros a0 r0 H. destruct (upd_cases _ (recs s) a (Some r') a0) as [[-> E]|[Hn E]]; rewrite E in H; eauto.
-  - intros a0 r0 H. destruct (upd_cases _ (recs s) a (Some r') a0) as [[-> E]|[Hn E]]; rewrite E in H; eauto.
-    inversion H; subst; cbn. auto.
-  - intros a0 r0 H. destruct (upd_cases _ (recs s) a (Some r') a0) as [[-> E]|[Hn E]]; rewrite E in H.
-    + inversion H; subst r0; subst r'; proj. specialize (S1 _ _ Hr).
-      destruct (0 <? amt - sl) eqn:P.
-      * rewrite upd2_same. lia.
-      * apply Z.ltb_ge in P. lia.
-    + destruct (0 <? amt - sl); [rewrite upd2_other_a|]; eauto.
-  - intros a0 r0 v0 H Hv. destruct (upd_cases _ (recs s) a (Some r') a0) as [[-> E]|[Hn E]]; rewrite E in H.
-    + inversion H; subst r0; subst r'; proj. destruct (0 <? amt - sl); [rewrite upd2_other_b|]; eauto.
-    + destruct (0 <? amt - sl); [rewrite upd2_other_a|]; eauto.
-  - intros a0 v0 H. destruct (upd_cases _ (recs s) a (Some r') a0) as [[-> E]|[Hn E]]; rewrite E in H; [discriminate|].
-    destruct (0 <? amt - sl); [rewrite upd2_other_a|]; eauto.
-  - intros a0 r0 H Hp. destruct (upd_cases _ (recs s) a (Some r') a0) as [[-> E]|[Hn E]]; rewrite E in H.
-    + exfalso. apply Hp. apply memZ_In. auto.
-    + destruct (0 <? amt - sl); [rewrite upd2_other_a|]; eauto.
+  intros s a b e v amt s' I H. unfold bond in H. guards H. inversion H; subst; clear H.
+  eapply core_inv_upd with (s := s) (a := a); [exact I | unfold_power; reflexivity | | | cbn; auto]; unfold_power.
+  - destruct (memZ a (keys s)); [apply incl_refl | apply incl_appl, incl_refl].
+  - destruct (memZ a (keys s)) eqn:M; [apply memZ_In; auto | apply in_or_app; right; left; auto].
 Qed.
 
-Lemma re_delegate_rest : forall s a v rw s', rest_inv s -> re_delegate s a v rw = Ok s' -> rest_inv s'.
+Lemma add_delegate_core : forall s a amt rw s', core_inv s -> add_delegate s a amt rw = Ok s' -> core_inv s'.
 Proof.
-  intros s a v rw s' (K & SL & S1 & S2 & S3 & S4) H. unfold re_delegate in H. guards H.
-  inversion H; subst; clear H. rename o into r. rename Heqo into Hr.
-  assert (Hv : v <> o_val r) by (intro; subst; rewrite Z.eqb_refl in Heqb0; discriminate).
-  unfold rest_inv, keys_inv, slash_inv, stake_inv; proj.
-  set (r' := mkOracle (o_addr r) (o_bridger r) (o_ext r) (o_amount r) (o_start r) (o_online r) v (o_slash r)) in *.
-  repeat split.
-  - intros a0 r0 H. destruct (upd_cases _ (recs s) a (Some r') a0) as [[-> E]|[Hn E]]; rewrite E in H; eauto.
-  - intros a0 r0 H. destruct (upd_cases _ (recs s) a (Some r') a0) as [[-> E]|[Hn E]]; rewrite E in H; eauto.
-    inversion H; subst r0; subst r'; cbn. eauto.
-  - intros a0 r0 H. destruct (upd_cases _ (recs s) a (Some r') a0) as [[-> E]|[Hn E]]; rewrite E in H.
-    + inversion H; subst r0; subst r'; proj. rewrite upd2_same. rewrite (S2 _ _ v Hr Hv). specialize (S1 _ _ Hr). lia.
-    + rewrite !upd2_other_a; eauto.
-  - intros a0 r0 v0 H Hv0. destruct (upd_cases _ (recs s) a (Some r') a0) as [[-> E]|[Hn E]]; rewrite E in H.
-    + inversion H; subst r0; subst r'; proj. proj. rewrite upd2_other_b; auto.
-      destruct (Z.eq_dec v0 (o_val r)) as [->|N]; [apply upd2_same | rewrite upd2_other_b; eauto].
-    + rewrite !upd2_other_a; eauto.
-  - intros a0 v0 H. destruct (upd_cases _ (recs s) a (Some r') a0) as [[-> E]|[Hn E]]; rewrite E in H; [discriminate|].
-    rewrite !upd2_other_a; eauto.
-  - intros a0 r0 H Hp. destruct (upd_cases _ (recs s) a (Some r') a0) as [[-> E]|[Hn E]]; rewrite E in H.
-    + exfalso. apply Z.eqb_neq in Heqb1. apply Heqb1. eauto.
-    + rewrite !upd2_other_a; eauto.
+  intros s a amt rw s' I H. unfold add_delegate in H. guards H. inversion H; subst; clear H.
+  eapply core_inv_upd with (s := s) (a := a); [exact I | unfold_power; reflexivity | unfold_power; apply incl_refl | | cbn; auto].
+  unfold_power. destruct I as (K & _). eauto.
 Qed.
 
-(* operations that rewrite one record keeping amount / validator / slash / online *)
-Lemma rest_inv_same_fields : forall s s' a r r',
-  rest_inv s -> recs s a = Some r -> recs s' = upd (recs s) a (Some r') ->
-  o_amount r' = o_amount r -> o_val r' = o_val r -> o_slash r' = o_slash r -> o_online r' = o_online r ->
-  keys s' = keys s -> deleg s' = deleg s -> gov_und s' = gov_und s -> proposal s' = proposal s ->
-  rest_inv s'.
+Lemma re_delegate_core : forall s a v rw s', core_inv s -> re_delegate s a v rw = Ok s' -> core_inv s'.
 Proof.
-  intros s s' a r r' (K & SL & S1 & S2 & S3 & S4) Hr HR A V SLr O HK HD HG HP.
-  unfold rest_inv, keys_inv, slash_inv, stake_inv. rewrite HR, HK, HD, HG, HP. repeat split.
-  - intros a0 r0 H. destruct (upd_cases _ (recs s) a (Some r') a0) as [[-> E]|[Hn E]]; rewrite E in H; eauto.
-  - intros a0 r0 H. destruct (upd_cases _ (recs s) a (Some r') a0) as [[-> E]|[Hn E]]; rewrite E in H; eauto.
-    inversion H; subst r0. rewrite SLr, O. eauto.
-  - intros a0 r0 H. destruct (upd_cases _ (recs s) a (Some r') a0) as [[-> E]|[Hn E]]; rewrite E in H; eauto.
-    inversion H; subst r0. rewrite A, V. eauto.
-  - intros a0 r0 v0 H Hv. destruct (upd_cases _ (recs s) a (Some r') a0) as [[-> E]|[Hn E]]; rewrite E in H; eauto.
-    inversion H; subst r0. rewrite V in Hv. eauto.
-  - intros a0 v0 H. destruct (upd_cases _ (recs s) a (Some r') a0) as [[-> E]|[Hn E]]; rewrite E in H; [discriminate|eauto].
-  - intros a0 r0 H Hp. destruct (upd_cases _ (recs s) a (Some r') a0) as [[-> E]|[Hn E]]; rewrite E in H; eauto.
-    inversion H; subst r0. rewrite V. eauto.
+  intros s a v rw s' I H. unfold re_delegate in H. guards H. inversion H; subst; clear H.
+  eapply core_inv_upd with (s := s) (a := a); [exact I | proj; reflexivity | proj; apply incl_refl | | ].
+  - proj. destruct I as (K & _). eauto.
+  - cbn. destruct I as (_ & SL). eauto.
 Qed.
 
-Lemma edit_bridger_rest : forall s a b s', rest_inv s -> edit_bridger s a b = Ok s' -> rest_inv s'.
+Lemma edit_bridger_core : forall s a b s', core_inv s -> edit_bridger s a b = Ok s' -> core_inv s'.
 Proof.
   intros s a b s' I H. unfold edit_bridger in H. guards H. inversion H; subst; clear H.
-  eapply rest_inv_same_fields with (s := s) (a := a) (r := o);
-    [exact I | exact Heqo | proj; reflexivity | ..]; reflexivity.
+  eapply core_inv_upd with (s := s) (a := a); [exact I | proj; reflexivity | proj; apply incl_refl | | ].
+  - proj. destruct I as (K & _). eauto.
+  - cbn. destruct I as (_ & SL). eauto.
 Qed.
 
-(* operations that do not touch records, delegations or the proposal list *)
-Lemma rest_inv_frame : forall s s',
-  rest_inv s -> recs s' = recs s -> keys s' = keys s -> deleg s' = deleg s -> gov_und s' = gov_und s ->
-  proposal s' = proposal s -> rest_inv s'.
+Lemma unbond_core : forall s a s', core_inv s -> unbond s a = Ok s' -> core_inv s'.
 Proof.
-  intros s s' I HR HK HD HG HP. unfold rest_inv, keys_inv, slash_inv, stake_inv in *.
-  rewrite HR, HK, HD, HG, HP. exact I.
-Qed.
-
-Lemma unbond_rest : forall s a s', rest_inv s -> unbond s a = Ok s' -> rest_inv s'.
-Proof.
-  intros s a s' (K & SL & S1 & S2 & S3 & S4) H. unfold unbond in H. guards H.
-  inversion H; subst; clear H. rename o into r. rename Heqo into Hr.
-  assert (Hp : ~ In a (proposal s)) by (intro X; apply memZ_In in X; congruence).
-  unfold rest_inv, keys_inv, slash_inv, stake_inv; proj. repeat split.
+  intros s a s' (K & SL) H. unfold unbond in H. guards H. inversion H; subst; clear H.
+  split; unfold keys_inv, slash_inv; proj.
   - intros a0 r0 H. destruct (upd_cases _ (recs s) a None a0) as [[-> E]|[Hn E]]; rewrite E in H; [discriminate|].
     unfold remZ. apply filter_In. split; eauto. apply Bool.negb_true_iff. apply Z.eqb_neq. auto.
   - intros a0 r0 H. destruct (upd_cases _ (recs s) a None a0) as [[-> E]|[Hn E]]; rewrite E in H; [discriminate|eauto].
-  - intros a0 r0 H. destruct (upd_cases _ (recs s) a None a0) as [[-> E]|[Hn E]]; rewrite E in H; [discriminate|eauto].
-  - intros a0 r0 v0 H Hv. destruct (upd_cases _ (recs s) a None a0) as [[-> E]|[Hn E]]; rewrite E in H; [discriminate|eauto].
-  - intros a0 v0 H. destruct (upd_cases _ (recs s) a None a0) as [[-> E]|[Hn E]]; rewrite E in H; [|eauto].
-    destruct (Z.eq_dec v0 (o_val r)) as [->|N]; eauto.
-  - intros a0 r0 H Hp0. destruct (upd_cases _ (recs s) a None a0) as [[-> E]|[Hn E]]; rewrite E in H; [discriminate|eauto].
 Qed.
 
-(* ---------------- governance list update ---------------- *)
-
-Definition rest3 (s : state) : Prop :=
-  keys_inv s /\ slash_inv s /\
-  (forall a r, recs s a = Some r -> o_amount r = deleg s a (o_val r) + gov_und s a) /\
-  (forall a r v, recs s a = Some r -> v <> o_val r -> deleg s a v = 0) /\
-  (forall a v, recs s a = None -> deleg s a v = 0).
+(* ---------------- governance list update: structure ---------------- *)
 
 Definition gov_rel (r r' : oracle) : Prop := core_eq r r' /\ o_slash r' = o_slash r.
 
@@ -338,21 +227,17 @@ Proof.
   destruct (f (o_addr q)), (g (o_addr q)); try tauto. eapply gov_rel_trans; eauto.
 Qed.
 
-Definition zero_mono (s s' : state) : Prop := forall x y, deleg s x y = 0 -> deleg s' x y = 0.
 
-Lemma gov_unbond1_step : forall rws st q st1,
-  gov_unbond1 rws (Some st) q = Some st1 -> rest3 st -> cmatch (recs st) q ->
-  rest3 st1 /\ rel_recs gov_rel (recs st) (recs st1) /\ proposal st1 = proposal st /\ keys st1 = keys st /\
-  zero_mono st st1 /\ deleg st1 (o_addr q) (o_val q) = 0 /\
+(* one UnbondedOracleFromProposal: the record at the snapshot's address becomes [set_offline snapshot],
+   nothing else in the registry moves *)
+Lemma gov_unbond1_core : forall rws st q st1,
+  gov_unbond1 rws (Some st) q = Some st1 -> core_inv st -> cmatch (recs st) q ->
+  core_inv st1 /\ rel_recs gov_rel (recs st) (recs st1) /\ proposal st1 = proposal st /\ keys st1 = keys st /\
   (forall a, recs st1 a = recs st a \/ (a = o_addr q /\ recs st1 a = Some (set_offline q))) /\
   burned st1 = burned st /\ bal_o st1 = bal_o st /\ prm st1 = prm st /\ height st1 = height st /\
   by_bridger st1 = by_bridger st /\ by_ext st1 = by_ext st.
 Proof.
-  intros rws st q st1 H (K & SL & S1 & S2 & S3) M. unfold gov_unbond1 in H.
-  destruct (deleg st (o_addr q) (o_val q) =? 0) eqn:T; [discriminate|].
-  destruct (negb (memZ (o_val q) (vals st))); [discriminate|].
-  destruct (max_entries <=? count_ubd (o_addr q) (o_val q) (ubds st)); [discriminate|].
-  inversion H; subst; clear H.
+  intros rws st q st1 H (K & SL) M. inv_gov1 H.
   unfold cmatch in M. destruct (recs st (o_addr q)) as [r0|] eqn:E0; [|tauto].
   destruct M as ((A1 & A2 & A3 & A4 & A5 & A6) & A7).
   fold (set_offline q).
@@ -360,28 +245,15 @@ Proof.
   { intros x. destruct (upd_cases _ (recs st) (o_addr q) (Some (set_offline q)) x) as [[-> ->]|[Hn ->]].
     - rewrite E0. unfold gov_rel, core_eq, set_offline; cbn. intuition congruence.
     - destruct (recs st x); auto. apply gov_rel_refl. }
-  unfold rest3, keys_inv, slash_inv, zero_mono; proj.
-  repeat split; auto.
-  - intros a r H. destruct (upd_cases _ (recs st) (o_addr q) (Some (set_offline q)) a) as [[-> E]|[Hn E]]; rewrite E in H; eauto.
-  - intros a r H. destruct (upd_cases _ (recs st) (o_addr q) (Some (set_offline q)) a) as [[-> E]|[Hn E]]; rewrite E in H; eauto.
-    inversion H; subst r; cbn. destruct (SL _ _ E0) as [Z0|[Z1 _]]; [left; congruence | right; split; congruence].
-  - intros a r H. destruct (upd_cases _ (recs st) (o_addr q) (Some (set_offline q)) a) as [[-> E]|[Hn E]]; rewrite E in H.
-    + inversion H; subst r; cbn. rewrite upd2_same, upd_same. specialize (S1 _ _ E0). rewrite A4, A5 in S1. lia.
-    + rewrite upd2_other_a, upd_other; eauto.
-  - intros a r v H Hv. destruct (upd_cases _ (recs st) (o_addr q) (Some (set_offline q)) a) as [[-> E]|[Hn E]]; rewrite E in H.
-    + inversion H; subst r; cbn in Hv. rewrite upd2_other_b; auto. apply (S2 _ _ v E0). congruence.
-    + rewrite upd2_other_a; eauto.
-  - intros a v H. destruct (upd_cases _ (recs st) (o_addr q) (Some (set_offline q)) a) as [[-> E]|[Hn E]]; rewrite E in H; [discriminate|].
-    rewrite upd2_other_a; eauto.
-  - intros x y H. unfold upd2. destruct ((x =? o_addr q) && (y =? o_val q)); auto.
-  - apply upd2_same.
+  proj. split; [|repeat split; auto].
+  - eapply core_inv_upd with (s := st) (a := o_addr q); [split; auto | proj; reflexivity | proj; apply incl_refl | proj; eauto | ].
+    cbn. destruct (SL _ _ E0) as [Z0|[Z1 _]]; [left; congruence | right; split; congruence].
   - intros a. destruct (upd_cases _ (recs st) (o_addr q) (Some (set_offline q)) a) as [[-> E]|[Hn E]]; rewrite E; auto.
 Qed.
 
-Lemma gov_fold_step : forall rws l st st',
-  fold_left (gov_unbond1 rws) l (Some st) = Some st' -> rest3 st -> (forall q, In q l -> cmatch (recs st) q) ->
-  rest3 st' /\ rel_recs gov_rel (recs st) (recs st') /\ proposal st' = proposal st /\ keys st' = keys st /\
-  zero_mono st st' /\ (forall q, In q l -> deleg st' (o_addr q) (o_val q) = 0) /\
+Lemma gov_fold_core : forall rws l st st',
+  fold_left (gov_unbond1 rws) l (Some st) = Some st' -> core_inv st -> (forall q, In q l -> cmatch (recs st) q) ->
+  core_inv st' /\ rel_recs gov_rel (recs st) (recs st') /\ proposal st' = proposal st /\ keys st' = keys st /\
   (forall a, (forall q, In q l -> o_addr q <> a) -> recs st' a = recs st a) /\
   (forall a r r', recs st a = Some r -> recs st' a = Some r' -> r' = r \/ r' = set_offline r \/ exists q, In q l /\ r' = set_offline q) /\
   burned st' = burned st /\ bal_o st' = bal_o st /\ prm st' = prm st /\ height st' = height st /\
@@ -390,18 +262,16 @@ Proof.
   intros rws l. induction l as [|q t IH]; intros st st' H R M; cbn [fold_left] in H.
   - inversion H; subst.
     split; [exact R|]. split; [apply rel_recs_refl, gov_rel_refl|]. split; [reflexivity|]. split; [reflexivity|].
-    split; [unfold zero_mono; auto|]. split; [intros ? []|]. split; [intros; reflexivity|].
+    split; [intros; reflexivity|].
     split; [intros a r r' H1 H2; left; congruence|]. repeat split; reflexivity.
   - destruct (gov_unbond1 rws (Some st) q) as [st1|] eqn:E; [|rewrite gov_unbond1_none in H; discriminate].
-    destruct (gov_unbond1_step _ _ _ _ E R (M q (or_introl eq_refl))) as (R1 & L1 & P1 & K1 & Z1 & D1 & C1 & B1 & O1 & PR1 & H1 & BB1 & BE1).
+    destruct (gov_unbond1_core _ _ _ _ E R (M q (or_introl eq_refl))) as (R1 & L1 & P1 & K1 & C1 & B1 & O1 & PR1 & H1 & BB1 & BE1).
     assert (M1 : forall q', In q' t -> cmatch (recs st1) q').
     { intros q' Hq'. eapply cmatch_rel; [exact L1 | apply M; right; auto]. }
-    destruct (IH _ _ H R1 M1) as (R2 & L2 & P2 & K2 & Z2 & D2 & C2 & E2 & B2 & O2 & PR2 & H2 & BB2 & BE2).
+    destruct (IH _ _ H R1 M1) as (R2 & L2 & P2 & K2 & C2 & E2 & B2 & O2 & PR2 & H2 & BB2 & BE2).
     split; [exact R2|].
     split; [eapply rel_recs_trans; [apply gov_rel_trans | exact L1 | exact L2]|].
     split; [congruence|]. split; [congruence|].
-    split; [unfold zero_mono in *; auto|].
-    split; [intros q' [<-|Hq']; auto|].
     split.
     { intros a Ha. rewrite C2 by (intros; apply Ha; right; auto).
       destruct (C1 a) as [->|[Eq _]]; auto. exfalso. apply (Ha q); auto. left; auto. }
@@ -422,15 +292,19 @@ Proof.
   intros s a r Ha Hr. unfold all_recs. apply in_flat_map. exists a. split; auto. rewrite Hr. left; auto.
 Qed.
 
-(* what UpdateProposalOracles does, as one statement *)
-Lemma gov_set_spec : forall s l rws s', idx_inv s -> rest_inv s -> gov_set s l rws = Ok s' ->
-  rest_inv s' /\ proposal s' = l /\ keys s' = keys s /\ rel_recs gov_rel (recs s) (recs s') /\
-  (forall a, In a l -> recs s' a = recs s a) /\
-  (forall a r r', recs s a = Some r -> recs s' a = Some r' -> r' = r \/ r' = set_offline r) /\
-  burned s' = burned s /\ bal_o s' = bal_o s /\ prm s' = prm s /\ height s' = height s /\
-  l <> [] /\ nodupb l = true.
+
+(* inversion of a successful UpdateProposalOracles *)
+Lemma gov_set_inv : forall s l rws s', gov_set s l rws = Ok s' ->
+  l <> [] /\ nodupb l = true /\
+  fold_left (gov_unbond1 rws)
+    (filter (fun r => negb (memZ (o_addr r) l) && memZ (o_addr r) (proposal s)) (all_recs s))
+    (Some (mkState (height s) (now s) (ubtime s) (vals s) (prm s) l (keys s)
+                  (recs s) (by_bridger s) (by_ext s) (total_power s) (deleg s) (ubds s) (reds s)
+                  (bal_o s) (bal_d s) (sets s) (latest_set s) (slashed_set s) (last_slash_height s)
+                  (batches s) (slashed_batch_block s) (calls s) (slashed_call s) (next_call s)
+                  (burned s) (gov_und s))) = Some s'.
 Proof.
-  intros s l rws s' I (K & SL & S1 & S2 & S3 & S4) H. unfold gov_set in H.
+  intros s l rws s' H. unfold gov_set in H.
   destruct l as [|l0 lt] eqn:EL; [discriminate|]. rewrite <- EL in *.
   assert (Lne : l <> []) by (rewrite EL; discriminate).
   replace (match l with [] => true | _ :: _ => false end) with false in H by (rewrite EL; reflexivity).
@@ -438,44 +312,40 @@ Proof.
   destruct (max_oracle_size <? Z.of_nat (length l)); [discriminate|].
   match type of H with (if ?c then _ else _) = _ => destruct c; [discriminate|] end.
   match type of H with match fold_left ?f ?g (Some ?s1) with _ => _ end = _ =>
-    destruct (fold_left f g (Some s1)) as [s2|] eqn:F; [|discriminate]; set (st1 := s1) in * end.
-  inversion H; subst s2; clear H.
+    destruct (fold_left f g (Some s1)) as [s2|] eqn:F; [|discriminate] end.
+  inversion H; subst s2. auto.
+Qed.
+
+(* what UpdateProposalOracles does to the registry, as one statement *)
+Lemma gov_set_spec : forall s l rws s', idx_inv s -> core_inv s -> gov_set s l rws = Ok s' ->
+  core_inv s' /\ proposal s' = l /\ keys s' = keys s /\ rel_recs gov_rel (recs s) (recs s') /\
+  (forall a, In a l -> recs s' a = recs s a) /\
+  (forall a r r', recs s a = Some r -> recs s' a = Some r' -> r' = r \/ r' = set_offline r) /\
+  burned s' = burned s /\ bal_o s' = bal_o s /\ prm s' = prm s /\ height s' = height s /\
+  l <> [] /\ nodupb l = true.
+Proof.
+  intros s l rws s' I (K & SL) H. destruct (gov_set_inv _ _ _ _ H) as (Lne & ND & F).
   set (gone := filter (fun r => negb (memZ (o_addr r) l) && memZ (o_addr r) (proposal s)) (all_recs s)) in *.
-  assert (R1 : rest3 st1) by (unfold rest3, keys_inv, slash_inv; subst st1; proj; repeat split; auto).
+  match type of F with fold_left _ _ (Some ?s1) = _ => set (st1 := s1) in * end.
+  assert (R1 : core_inv st1) by (split; unfold keys_inv, slash_inv; subst st1; proj; auto).
+  assert (ADDR : forall a r, recs s a = Some r -> o_addr r = a) by (intros a r Hr; destruct I as (I1 & _); apply (I1 _ _ Hr)).
   assert (M1 : forall q, In q gone -> cmatch (recs st1) q).
   { intros q Hq. apply filter_In in Hq. destruct Hq as [Hq _]. apply all_recs_In in Hq.
-    destruct Hq as (a & Ha & Hr). destruct I as (I1 & _). destruct (I1 _ _ Hr) as (A & _).
-    unfold cmatch. subst st1; proj. rewrite A, Hr. apply gov_rel_refl. }
-  destruct (gov_fold_step _ _ _ _ F R1 M1) as ((K2 & SL2 & T1 & T2 & T3) & L2 & P2 & K2' & Z2 & D2 & C2 & E2 & B2 & O2 & PR2 & H2 & BB2 & BE2).
+    destruct Hq as (a & Ha & Hr). unfold cmatch. subst st1; proj. rewrite (ADDR _ _ Hr), Hr. apply gov_rel_refl. }
+  destruct (gov_fold_core _ _ _ _ F R1 M1) as (R2 & L2 & P2 & K2 & C2 & E2 & B2 & O2 & PR2 & H2 & BB2 & BE2).
   subst st1; proj.
-  assert (ADDR : forall a r, recs s a = Some r -> o_addr r = a) by (intros a r Hr; destruct I as (I1 & _); apply (I1 _ _ Hr)).
-  split.
-  { unfold rest_inv, stake_inv. repeat split; auto.
-    intros a r' Hr' Hnl. rewrite P2 in Hnl.
-    pose proof (L2 a) as La. rewrite Hr' in La. destruct (recs s a) as [r|] eqn:Hr; [|tauto].
-    destruct La as ((_ & _ & _ & _ & V & _) & _). rewrite V.
-    destruct (memZ a (proposal s)) eqn:MP.
-    - assert (G : In r gone).
-      { apply filter_In. split; [eapply In_all_recs; eauto|]. rewrite (ADDR _ _ Hr), MP.
-        destruct (memZ a l) eqn:ML; [apply memZ_In in ML; tauto | reflexivity]. }
-      specialize (D2 _ G). rewrite (ADDR _ _ Hr) in D2. exact D2.
-    - apply Z2. apply S4; auto. intro X. apply memZ_In in X. congruence. }
-  split; [exact P2|]. split; [exact K2'|]. split; [exact L2|].
+  split; [exact R2|]. split; [exact P2|]. split; [exact K2|]. split; [exact L2|].
   split.
   { intros a Ha. apply C2. intros q Hq Eq. apply filter_In in Hq. destruct Hq as [_ Hq].
     rewrite Eq in Hq. apply memZ_In in Ha. rewrite Ha in Hq. discriminate. }
   split.
   { intros a r r' Hr Hr'. destruct (E2 _ _ _ Hr Hr') as [X|[X|(q & Hq & X)]]; auto.
     right. apply filter_In in Hq. destruct Hq as [Hq _].
-    (* q is the stored record of its own address, and it was written at address a *)
     apply all_recs_In in Hq. destruct Hq as (a' & _ & Hq).
     pose proof (L2 a) as La. rewrite Hr, Hr' in La. destruct La as ((A & _) & _).
     rewrite X in A. cbn in A. rewrite (ADDR _ _ Hq), (ADDR _ _ Hr) in A. subst a'. congruence. }
   repeat split; auto.
 Qed.
-
-Lemma gov_set_rest : forall s l rws s', idx_inv s -> rest_inv s -> gov_set s l rws = Ok s' -> rest_inv s'.
-Proof. intros. eapply gov_set_spec; eauto. Qed.
 
 (* ---------------- end blocker ---------------- *)
 
@@ -536,37 +406,48 @@ Proof.
   repeat split; auto.
 Qed.
 
-Lemma end_block_rest : forall s t1 t2 pd s', rest_inv s -> end_block s t1 t2 pd = Ok s' -> rest_inv s'.
+Lemma end_block_core : forall s t1 t2 pd s', core_inv s -> end_block s t1 t2 pd = Ok s' -> core_inv s'.
 Proof.
-  intros s t1 t2 pd s' (K & SL & ST) H. apply end_block_spec in H.
-  destruct H as (R & _ & HK & HP & HD & HG & _).
-  split; [eapply keys_inv_rel; eauto|]. split; [eapply slash_inv_rel; eauto|].
-  eapply stake_inv_core; eauto. eapply rel_recs_impl; [apply slash_rel_core | exact R].
+  intros s t1 t2 pd s' (K & SL) H. apply end_block_spec in H.
+  destruct H as (R & _ & HK & _).
+  split; [eapply keys_inv_rel; eauto | eapply slash_inv_rel; eauto].
 Qed.
 
-Theorem step_rest : forall s o s', idx_inv s -> rest_inv s -> step s o = Ok s' -> rest_inv s'.
+Lemma end_block_vals : forall s t1 t2 pd s', end_block s t1 t2 pd = Ok s' -> vals s' = vals s.
+Proof.
+  intros s t1 t2 pd s' H. apply end_block_inv in H. destruct H as (s2 & H2 & ->).
+  unfold slashing in H2.
+  match type of H2 with (if ?c then _ else _) = _ => destruct c; [discriminate|] end.
+  inversion H2; subst; clear H2. unfold next_block, create_set.
+  repeat match goal with |- context[if ?c then _ else _] => destruct c end; unfold_power; reflexivity.
+Qed.
+
+Theorem step_core : forall s o s', idx_inv s -> core_inv s -> step s o = Ok s' -> core_inv s'.
 Proof.
   intros s o s' I R H. destruct o; cbn [step] in H.
-  - eapply bond_rest; eauto.
-  - eapply add_delegate_rest; eauto.
-  - eapply re_delegate_rest; eauto.
-  - eapply edit_bridger_rest; eauto.
-  - unfold withdraw_reward in H. guards H. inversion H; subst. eapply rest_inv_frame; eauto.
-  - eapply unbond_rest; eauto.
-  - eapply gov_set_rest; eauto.
-  - unfold set_params in H. guards H. inversion H; subst. eapply rest_inv_frame; eauto.
-  - unfold confirm in H. guards H. inversion H; subst. eapply rest_inv_frame; eauto; destruct k; reflexivity.
-  - unfold add_batch in H. guards H. inversion H; subst. eapply rest_inv_frame; eauto.
-  - unfold del_batch in H. inversion H; subst. eapply rest_inv_frame; eauto.
-  - unfold add_call in H. inversion H; subst. eapply rest_inv_frame; eauto.
-  - unfold del_call in H. inversion H; subst. eapply rest_inv_frame; eauto.
-  - unfold fund in H. inversion H; subst. eapply rest_inv_frame; eauto.
-  - eapply end_block_rest; eauto.
+  - eapply bond_core; eauto.
+  - eapply add_delegate_core; eauto.
+  - eapply re_delegate_core; eauto.
+  - eapply edit_bridger_core; eauto.
+  - unfold withdraw_reward in H. guards H. inversion H; subst. eapply core_inv_frame; eauto.
+  - eapply unbond_core; eauto.
+  - eapply gov_set_spec; eauto.
+  - unfold set_params in H. guards H. inversion H; subst. eapply core_inv_frame; eauto.
+  - unfold confirm in H. guards H. inversion H; subst. eapply core_inv_frame; eauto; destruct k; reflexivity.
+  - unfold add_batch in H. guards H. inversion H; subst. eapply core_inv_frame; eauto.
+  - unfold del_batch in H. inversion H; subst. eapply core_inv_frame; eauto.
+  - unfold add_call in H. inversion H; subst. eapply core_inv_frame; eauto.
+  - unfold del_call in H. inversion H; subst. eapply core_inv_frame; eauto.
+  - unfold fund in H. inversion H; subst. eapply core_inv_frame; eauto.
+  - unfold slash_val in H. destruct (negb (has_val s v)); inversion H; subst; eapply core_inv_frame; eauto.
+  - unfold env_val in H. inversion H; subst. eapply core_inv_frame; eauto.
+  - eapply end_block_core; eauto.
 Qed.
 
 Theorem step_reg : forall s o s', reg_inv s -> step s o = Ok s' -> reg_inv s'.
 Proof.
-  intros s o s' (I & R) H. split; [eapply step_idx; eauto | eapply step_rest; eauto].
+  intros s o s' (I & K & SL) H. pose proof (step_core _ _ _ I (conj K SL) H) as (K' & SL').
+  split; [eapply step_idx; eauto | split; auto].
 Qed.
 
 Lemma exec_reg : forall s o, reg_inv s -> reg_inv (exec s o).
@@ -579,6 +460,6 @@ Qed.
 
 Lemma init_reg : forall h t ub vs p, reg_inv (init h t ub vs p).
 Proof.
-  intros. split; [apply init_idx|]. unfold rest_inv, keys_inv, slash_inv, stake_inv, init; proj.
-  repeat split; intros; try discriminate; reflexivity.
+  intros. split; [apply init_idx|]. unfold keys_inv, slash_inv, init; proj.
+  split; intros; discriminate.
 Qed.
